@@ -46,19 +46,23 @@ def main():
     print('confirmed' if confirmed else 'NOT CONFIRMED', ran)
     results = {}
     if confirmed:
-        rc, out = sh('git -C /repo status --porcelain')
-        assert out.strip() == '', '/repo not clean: ' + out
-        rc, out = sh('git -C /repo apply %s' % patch)
-        assert rc == 0, out
+        # the registered quick commands, pointed at a scratch checkout that carries the change
+        # (VERIF_REPO); equivalent to `git -C /repo apply` + check + `git -C /repo checkout -- .`
+        # but leaves /repo untouched so that background soak runs are not disturbed
+        wt2 = tempfile.mkdtemp(prefix='seedrun-')
+        os.rmdir(wt2)
         try:
+            rc, out = sh('git -C /repo worktree add -q --detach %s HEAD && git -C %s apply %s' % (wt2, wt2, patch))
+            assert rc == 0, out
             for c in checks:
-                rc, out = sh('./check %s --tier quick' % c, cwd=ROOT, timeout=3000)
+                rc, out = sh('VERIF_REPO=%s ./check %s --tier quick' % (wt2, c), cwd=ROOT, timeout=3000)
                 viol = [ln for ln in out.splitlines() if ln.startswith('VIOLATION') or ln.startswith('  oracle=')]
                 results[c] = {'exit': rc, 'lines': [v[:400] for v in viol[:6]],
                               'summary': [ln for ln in out.splitlines() if ' tier=' in ln][-1:]}
                 print(c, 'exit', rc, viol[:2])
         finally:
-            sh('git -C /repo checkout -- .')
+            sh('git -C /repo worktree remove --force %s' % wt2)
+            shutil.rmtree(wt2, ignore_errors=True)
     dst = os.path.join(ROOT, 'seeded', mid)
     os.makedirs(dst, exist_ok=True)
     shutil.copy(patch, os.path.join(dst, 'patch.diff'))
